@@ -39,7 +39,10 @@ type Behaviour struct {
 	ProbeCloseFail   bool `json:"probe_close_fail"` // while the schema is probed, the write of the ATP "client done" message fails
 	// a RUN-time deployment (not a schema probe) whose Close reports an error after it has done its work (a container that
 	// was killed but could not be removed): everything is released, the caller only gets the error
-	CloseFail bool           `json:"close_fail,omitempty"`
+	CloseFail bool `json:"close_fail,omitempty"`
+	// a RUN-time deployment whose connection is broken from the first write on (as testdeployer's disable_plugin_writes): the
+	// step deploys and then fails in its STARTING stage; its plugin never executes
+	StartFail bool           `json:"start_fail,omitempty"`
 	Data      map[string]any `json:"data"` // overrides of the produced output fields
 }
 
@@ -385,6 +388,9 @@ func (c *sdConnector) Deploy(ctx context.Context, image string) (deployer.Plugin
 	}
 	pl := &sdPlugin{reader: stdoutReader, writer: stdinWriter, cancel: cancel, wg: wg, src: image, script: s}
 	pl.closeFail = b.CloseFail && !probing
+	if b.StartFail && !probing {
+		pl.failWriteFrom = 1
+	}
 	if probing && b.ProbeCloseFail {
 		pl.failWriteFrom = 2 // the first write starts the session, the second is the "client done" message
 	}
